@@ -11,6 +11,12 @@ TRUST = ("Trusted base: go/types, go/ssa and the VTA/CHA call graphs of golang.o
 
 # id -> (technique, claim text, design_ref)
 CLAIMED = {
+ "C10": ("SSA length-fact analysis (E-LEN): interval facts on len() from allocation, slicing, callee post-conditions, edge-sensitive branch conditions; induction patterns; reviewed-invariant table with re-checked guards; allocation provenance through call sites",
+         "Decides, for every slice/string index, slice expression, ByteOrder decode, bare assertion, explicit panic, division and make() size in the ~150 functions reachable from the reader goroutine (exhaustive over the current tree), that it cannot panic or over-allocate for any wire input: proved from length facts, or listed as a reviewed invariant whose guard is re-checked on every run; anything else is a violation, so a new unguarded access and the removal of an existing guard are both reported. The six call sites that size an allocation from a 32-bit wire length are recorded findings. Nil dereferences and panics inside the standard library are not decided.",
+         "DESIGN.md §3 C10"),
+ "C17": ("E-LEN over the DSN parsers/formatters; SSA dominance rules for key lookup; E-CONST comparison of reflect.Kind case sets",
+         "Decides the totality and rejection clauses: no index or slice expression reachable from the DSN parsers can go out of range for any input string, unknown keys are rejected before anything is set, the empty string is never a key, field kinds are handled consistently, and the last value of a repeated URI query key wins. Round-trip equality is not decided (one seeded change that collapses runs of spaces is, by design, not detected).",
+         "DESIGN.md §3 C17"),
  "C16": ("SSA guard dominance on the Decimal constructors and SetString; half-plane normalisation of sanity()'s guards",
          "Decides the two rejection clauses of the property: constructors succeed only after sanity() and sanity's guards cover the complement of 0 <= scale <= precision <= 38; SetString succeeds only if the fraction fits the scale and the digits parsed. The format/parse round trip and all digit arithmetic are value-level and are not decided (two seeded arithmetic changes are, by design, not detected).",
          "DESIGN.md §3 C16"),
